@@ -100,7 +100,15 @@ impl PrettyPrint {
             .chars()
             .skip(first_non_ws)
             .take(offset)
-            .map(|c| if c.is_whitespace() { c } else { ' ' })
+            // (a carriage return left by a CR/LF file, or any other control
+            // character, would send the marker back to the start of the line)
+            .map(|c| {
+                if c == '\t' || (c.is_whitespace() && !c.is_control()) {
+                    c
+                } else {
+                    ' '
+                }
+            })
             .collect();
         for _ in base.chars().count()..offset {
             base.push(' ');
